@@ -411,8 +411,9 @@ def check_descr(case, ctx):
             require(isinstance(ent, tuple) and len(ent) == (3 if len(spec[3]) else 2),
                     "%s: entry %r does not match field spec %r", what, ent, spec)
             require(ent[0] == spec[0], "%s: name %r -> %r", what, spec[0], ent[0])
-            require(ent[1] == spec[1], "%s: type string %r, expected %r without byte order", what,
-                    ent[1], spec[1])
+            # "no byte order information": '<'/'>' must be gone; a leading '|' or '=' says nothing
+            require(isinstance(ent[1], str) and ent[1][:1] not in "<>" and ent[1].lstrip("|=") == spec[1],
+                    "%s: type string %r, expected %r without byte order", what, ent[1], spec[1])
             if len(spec[3]):
                 require(tuple(ent[2]) == tuple(spec[3]), "%s: sub-array shape %r -> %r", what, spec[3], ent[2])
         got = np.dtype(out)
